@@ -221,7 +221,14 @@ def run_check(pid: str, tier: str, seed: int) -> int:
             with open(os.path.join(regress_dir, fn)) as f:
                 body = json.load(f)
             n_regress += 1
-            got = replay_keys(mod, body["record"])
+            try:
+                got = replay_keys(mod, body["record"])
+            except HarnessError:
+                raise
+            except Exception as e:
+                # a witness that replays cleanly on the repaired tree and now makes the check's own code trip over what the library
+                # did: that is a change of behaviour on a recorded input, reported as such (not a harness error)
+                got = {f"{pid}:witness-replay-raises:{type(e).__name__}": f"replaying {fn}: {type(e).__name__}: {e}"}
             for k, what in got.items():
                 if k in open_keys:
                     known_hits[k] += 1
